@@ -77,14 +77,16 @@ pub fn run(a: &Args) {
             // the scripted printer answers what was asked for (a query that forgets printer-state-reasons gets none)
             let asked = requested_attrs(&seen.body);
             let printer = |state: i32, reasons: AV| AGroup { tag: 4, attrs: filter_requested(vec![("printer-state".into(), AV::Enum(state)), ("printer-state-reasons".into(), reasons), ("printer-name".into(), AV::Str("NameWithoutLanguage", "p".into()))], &asked) };
+            // any of the successful statuses of RFC 8011 (successful-ok, -ok-ignored-or-substituted-attributes, -ok-conflicting-attributes)
+            let sst = [0u16, 1, 2][crate::mix(rot) % 3];
             match script["check"].as_str().unwrap_or("ready") {
-                "ready" => ok(ipp_response(0, rid, vec![printer(if rot % 2 == 0 { 3 } else { 4 }, AV::Str("Keyword", "none".into()))])),
-                "stopped" => ok(ipp_response(0, rid, vec![printer(5, AV::Str("Keyword", "none".into()))])),
-                "blocked-single" => ok(ipp_response(0, rid, vec![printer(3, AV::Str("Keyword", b.into()))])),
+                "ready" => ok(ipp_response(sst, rid, vec![printer(if rot % 2 == 0 { 3 } else { 4 }, AV::Str("Keyword", "none".into()))])),
+                "stopped" => ok(ipp_response(sst, rid, vec![printer(5, AV::Str("Keyword", "none".into()))])),
+                "blocked-single" => ok(ipp_response(sst, rid, vec![printer(3, AV::Str("Keyword", b.into()))])),
                 "blocked-set" => {
                     let mut v = vec![AV::Str("Keyword", "media-low".into()), AV::Str("Keyword", "toner-low".into())];
                     v.insert(rot % 3, AV::Str("Keyword", b.into()));
-                    ok(ipp_response(0, rid, vec![printer(4, AV::Set(v))]))
+                    ok(ipp_response(sst, rid, vec![printer(4, AV::Set(v))]))
                 }
                 "ipp-error" => ok(ipp_response([0x0400u16, 0x0406, 0x0500, 0x0507][rot % 4], rid, vec![])),
                 _ => Script { framing: "length".into(), status: [500u16, 503, 404, 401][rot % 4], body: b"nope".to_vec(), frag: 0, cut_at: None, stall_ms: 0, drip_ms: 0 },
